@@ -32,7 +32,9 @@ RULE = ("Grid (complete): starttls argument {False, True, 1, 'required' (truthy,
 COMPONENTS = {"real": ["sievelib.managesieve.Client", "sievelib.digest_md5"],
               "stub": ["socket/ssl modules (simkit.net; TLS is a channel flag, no real handshake)", "ManageSieve server (simkit.mserver)"]}
 ASSUMPTIONS = ["'statically, for every method' is approximated dynamically: every public callable of the class is exercised in every phase",
-               "how connect fails (False or any exception) is not constrained"]
+               "how connect fails (False or any exception) is not constrained",
+               "'chosen from the capabilities announced after the handshake' is judged, where the two listings differ, as: the mechanism used is the one C16's "
+               "stated rule (the caller's implemented authmech and no other, else the first of DIGEST-MD5, PLAIN, LOGIN, OAUTHBEARER announced) yields on the later listing"]
 
 SCRIPT_METHODS = ["havespace", "listscripts", "getscript", "putscript", "checkscript", "deletescript",
                   "renamescript", "setactive"]
@@ -226,6 +228,13 @@ def conn_authenticated(srv, conn):
     return conn.state.auth_ok_count > 0
 
 
+def listings_differ(cfg):
+    """Both listings exist and name different mechanisms: only then does 'chosen from the later listing, not the earlier one'
+    say anything that C16's rule alone does not."""
+    pre, post = cfg.sasl_pre, cfg.sasl_post
+    return isinstance(pre, list) and isinstance(post, list) and pre != post
+
+
 def check_after_call(world, srv, client, meth, args, kw, out, was_auth, starttls_arg):
     """Safety clauses, evaluated after one call."""
     cid = out.call_id
@@ -263,7 +272,7 @@ def check_after_call(world, srv, client, meth, args, kw, out, was_auth, starttls
                 if r.verb == b"AUTHENTICATE" and r.sasl is not None and r.sasl.get("unannounced"):
                     return Failure(PROP, "C10.stale-mech", "after STARTTLS the client authenticated with %s, which the server announced only before the handshake (announced now: %r)" % (
                         r.sasl["mech"], r.sasl["announced"]), {"call": meth})
-                if r.verb == b"AUTHENTICATE" and r.sasl is not None and r.channel != "plain":
+                if r.verb == b"AUTHENTICATE" and r.sasl is not None and r.channel != "plain" and listings_differ(srv.cfg):
                     now = [a.decode("ascii", "replace") if isinstance(a, bytes) else a for a in (r.sasl.get("announced") or [])]
                     from scenarios.c16 import expected_mech
                     allowed = expected_mech(now, kw.get("authmech"))
